@@ -18,6 +18,22 @@ CHECKS = {
    text="Blockstore.tla (the blockstore contract over an immutable store: first write wins, aliasing by multihash, typed not-found, cancelled contexts without side effects, hash-on-read on/off over matching and mismatching bytes) is model-checked; every reachable transition is executed on a real HashedBlockstore and TLC judges each logged outcome plus a post-call probe (Has, GetSize, Get of every multihash); seeded random histories over 4 hash functions, 3 codecs, CIDv0/v1 and block sizes 0 B..1 KiB extend the bound.",
    note="small-scope hypothesis for the exhaustive part; identity multihashes and digests shorter than 4 bytes are outside the property (key constraints of C01); TLC and community modules trusted.",
    ref="DESIGN.md §3.9, §6 C15"),
+ "C01": dict(engine="seq", technique="TLC-generated histories (KV.tla: exhaustive to a length bound + -simulate) replayed on the real store under a configuration sweep + TLC trace validation against the map (StoreTrace.tla)",
+   text="KV.tla specifies the map; TLC enumerates every history of Put/Remove/Flush up to a length bound and samples long histories of all calls with -simulate; each is executed on a real store (multihash and CID primaries, immutable on/off, index bits 8..24, file limits from 30 B - every record starts a new file - to 1 GiB, key sets sharing a bucket and up to 7 prefix bytes, empty values in both Go forms) and StoreTrace.tla, a total TLC monitor, judges every logged result, every iteration and a Get/Has/GetSize probe of every key after every call.",
+   note="bounded histories (exhaustive to length 4/5, sampled to length 40-60); 3-5 keys; verdict only from real-code observations; the byte-accurate mechanism model (Store.tla) is used for generation/conformance, not for verdicts.",
+   ref="DESIGN.md §3.1, §6 C01"),
+ "C02": dict(engine="seq", technique="TLC-generated histories with Close/reopen (KV.tla) replayed on the real store + TLC trace validation (StoreTrace.tla) incl. snapshot-vs-rescan bucket-table comparison",
+   text="Histories with Close/reopen at arbitrary positions (snapshot kept, deleted, truncated) mixed with flushes, rollovers, overwrites, removals and GC cycles are generated from KV.tla and run on a real store; at every reopen both recovery paths are additionally run on copies of the closed directory. TLC judges: contents unchanged (probe of every key), Close and a second Close return nil, reopen succeeds, both recovery paths open and yield identical bucket tables (read through a verif-tagged accessor).",
+   note="as C01; the live bucket table is compared only between the two recovery paths (the table before Close legitimately differs when data is unflushed).",
+   ref="DESIGN.md §6 C02"),
+ "C04": dict(engine="seq", technique="TLC-generated histories with GC cycles (KV.tla) replayed on the real store + TLC trace validation (StoreTrace.tla) with attribution by removing the GC steps",
+   text="Histories with index-GC (scan-free on/off) and primary-GC cycles (low-use thresholds 0/50/85/101, deterministic time limits that stop a cycle at its n-th check and resume later) at arbitrary positions, with and without unflushed data, around reopen, are generated from KV.tla (exhaustive to length 4/5 over the GC-relevant alphabet, sampled to length 50-80) and executed with file limits so small that every GC branch (mark, merge, truncate, empty file, unlink first, header advance, resume, freelist application, relocation of 1 and 2 records) occurs; TLC judges that every later Get/Has/GetSize/Remove/iteration/reopen answers as the map says. A failure is attributed to C04 only if it disappears when the GC steps are removed from the history.",
+   note="GC return values are logged, not judged; time limits are modelled by a context whose Err() turns DeadlineExceeded at the n-th call.",
+   ref="DESIGN.md §6 C04"),
+ "C09": dict(engine="seq", technique="TLC-generated histories with bit-size changes and refused opens (KV.tla) replayed on the real store + TLC trace validation (StoreTrace.tla)",
+   text="Histories that reopen with a different index bit size (pairs from 8..17 quick, 8..24 thorough), or try to open with a different index/primary file-size limit, are generated from KV.tla and executed; TLC judges contents unchanged after re-bucketing and C01 behaviour afterwards, that a mismatching limit is refused with the specific error type (errors.As) leaving the directory byte-identical, and that the original settings reopen intact. The interrupted-translation clause is decided by the crash engine (C03 machinery) - see level_note.",
+   note="crash points inside the translation are not yet enumerated by this check in this revision; the first two sentences of the property are covered.",
+   ref="DESIGN.md §6 C09"),
 }
 
 NOT_APPLICABLE = [
@@ -56,6 +72,7 @@ def main():
         "hooks": {"guard": "verif (Go build tag)", "enable": "go build -tags verif (the harness in /verif/harness is built with -tags verif against /repo via a replace directive)",
                   "baseline_off_cmd": BASELINE_OFF, "source_commits": [h.split()[0] for h in hooks_commits], "add_only": True},
         "engines": [
+            {"name": "seq", "path": "harness/cmd/vrun/seq.go + harness/internal/fsckread + spec/KV.tla + spec/StoreTrace.tla + tools/seqeng.py", "serves_properties": ["C01", "C02", "C04", "C09"], "kind_free_text": "TLC-generated call histories executed on a real store.Store; TLC total monitor over the recorded trace"},
             {"name": "bstore", "path": "harness/cmd/vrun/bstore.go + spec/Blockstore.tla + spec/BlockstoreTrace.tla", "serves_properties": ["C15"], "kind_free_text": "TLC state-graph replay on real HashedBlockstore + TLC trace monitor"},
             {"name": "fcache", "path": "harness/cmd/vrun/fcache.go + spec/FileCache.tla + spec/FileCacheTrace.tla", "serves_properties": ["C14"], "kind_free_text": "TLC state-graph replay on real FileCache + TLC trace monitor"},
             {"name": "reclist", "path": "harness/cmd/vrun/reclist.go + spec/RecordList.tla + spec/RecordListTrace.tla", "serves_properties": ["C08"], "kind_free_text": "TLC state-graph replay on real index.Index + TLC trace monitor"},
